@@ -117,11 +117,13 @@ def dec_rat(token: str) -> str | None:
 # ---------------------------------------------------------------- known findings
 
 def load_findings(pid: str) -> list:
-    p = VERIF / 'known_findings.json'
-    if not p.exists():
-        return []
-    data = json.loads(p.read_text())
-    return [f for f in data.get('findings', []) if f.get('property') == pid and f.get('status', 'open') == 'open']
+    out = []
+    for p in sorted(VERIF.glob('known_findings*.json')):
+        if p.name.endswith('.candidates.json'):
+            continue        # calibration output awaiting review: never read by a check
+        data = json.loads(p.read_text())
+        out += [f for f in data.get('findings', []) if f.get('property') == pid and f.get('status', 'open') == 'open']
+    return out
 
 
 def match_finding(findings: list, key: dict) -> dict | None:
